@@ -82,6 +82,23 @@ def fb(ctx):
     thn = [d for d in bdefs if is_call(d, 'bool>::then') or is_call(d, 'bool::then') or (d[0] == 'call' and re.search(r'bool>?::then$', d[1]))]
     addr = [d for d in bdefs if d[0] == 'agg' and d[1].endswith('Option::Some') and d[2][0][1][0] == 'agg' and d[2][0][1][1].endswith('FunctionBody::Address')]
     okb = len(bdefs) == 2 and len(thn) == 1 and len(addr) == 1 and strip(thn[0][2][0]) == V
+    if not okb and bv[0] == 'var' and len(bdefs) == 3 and len(addr) == 1 and not thn:
+        # `if is_vfunc { Some(FunctionBody::Vftable{..}) } else { None }` instead of `is_vfunc.then(..)`
+        from mirlib import _edge_conds
+        vs, ns = [], []
+        for dd in f.defs().get(bv[1], []):
+            de = strip(f.expr_of_def(dd))
+            conds = [(strip(c_), l_) for b_, c_, l_ in _edge_conds(f, dd[0])]
+            if de[0] == 'agg' and de[1].endswith('Option::Some') and strip(de[2][0][1])[0] == 'agg' and strip(de[2][0][1])[1].endswith('FunctionBody::Vftable'):
+                vs.append(conds)
+            elif de[0] == 'agg' and de[1].endswith('Option::None'):
+                ns.append(conds)
+        okb = len(vs) == 1 and len(ns) == 1 and (strip(V), True) in vs[0] and (strip(V), False) in ns[0]
+        if okb:
+            vdef = [strip(f.expr_of_def(dd)) for dd in f.defs().get(bv[1], []) if strip(f.expr_of_def(dd))[0] == 'agg' and strip(f.expr_of_def(dd))[1].endswith('Option::Some') and
+                    strip(strip(f.expr_of_def(dd))[2][0][1])[1].endswith('FunctionBody::Vftable')]
+            direct_vft = strip(vdef[0][2][0][1]) if vdef else None
+            thn = [('call', 'bool::then', [V, ('direct', direct_vft)])]
     ctx.ob(['C05', 'C04'], 'R-SLP', 'FB|body-sources', okb, 'the body is Vftable{..} exactly when is_vfunc (bool::then) or Address{..} from the address attribute: %s' % [show(d)[:100] for d in bdefs], where)
     if okb:
         a = dict(addr[0][2][0][1][2])['address']
@@ -94,7 +111,21 @@ def fb(ctx):
         cl = thn[0][2][1]
         okn = False
         det = ''
-        if cl[0] == 'closure' and cl[1] in P.fns:
+        if cl[0] == 'direct' and cl[1] is not None:
+            fnm = strip(expand(f, dict(cl[1][2])['function_name']))
+            det = show(fnm)
+
+            def as0d(e):
+                e = strip(e)
+                while e[0] == 'call' and e[2] and re.search(r'(::clone|::to_owned|::to_string|Into<.*>>::into|From<.*>>::from)$', e[1]):
+                    e = strip(e[2][0])
+                if e[0] == 'call' and e[1].endswith('Ident::as_str') and e[2]:
+                    return ('field', as0d(e[2][0]), '0')
+                if e[0] == 'field':
+                    return ('field', as0d(e[1]), e[2])
+                return e
+            okn = as0d(fnm) == as0d(expand(f, F['name']))
+        elif cl[0] == 'closure' and cl[1] in P.fns:
             cf = P.fns[cl[1]]
             ex = cf.exits()
             if len(ex) == 1 and ex[0]['expr'][0] == 'agg' and ex[0]['expr'][1].endswith('FunctionBody::Vftable'):
